@@ -57,25 +57,33 @@ def parse_pre(P):
     return ([int(x) for x in a.split(",")] if a else []), parse_map(b), parse_map(c)
 
 
-def dropped_class(toks, i):
-    """class predicate of finding F5 (Coq: Lexer.PreLemmas.dropped): trivia token i has no syntax token before it and
-    either a LineBreak token j >= i precedes the first syntax token, or the text has no syntax token at all"""
+def dropped_set(toks):
+    """class predicate of finding F5 (Coq: Lexer.PreLemmas.dropped, C13_dropped_in_words): the trivia token indices i such that
+    no syntax token precedes i and either a LineBreak token j >= i precedes the first syntax token, or the text has no syntax
+    token at all"""
     f = None
     for j, (k, _, _) in enumerate(toks):
         if k not in TRIVIA and k != "Eof":
             f = j
             break
     if f is None:
-        return True
-    return i < f and any(toks[j][0] == "LineBreak" for j in range(i, f))
+        return {j for j, (k, _, _) in enumerate(toks) if k in TRIVIA}
+    out, seen_lb = set(), False
+    for j in range(f - 1, -1, -1):
+        if toks[j][0] == "LineBreak":
+            seen_lb = True
+        if seen_lb and toks[j][0] in TRIVIA:
+            out.add(j)
+    return out
 
 
 def eval_property(src_bytes, fields):
-    """-> (failed clauses, list of F5-class trivia indices).  fields = [C, T, P, X, B] of the implementation."""
+    """-> (failed clauses, trivia indices attached nowhere and in the F5 class, all indices of the F5 class).
+    fields = [C, T, P, X, B] of the implementation."""
     C, T, P, X, B = fields
     bad = []
     if T == "PANIC":
-        return ["tokenize-panics"], []
+        return ["tokenize-panics"], [], None
     toks = parse_tokens(T)
     n = len(src_bytes)
     # --- tiling ---
@@ -97,9 +105,10 @@ def eval_property(src_bytes, fields):
         bad.append("eof-only-last")
     # --- trivia ---
     f5 = []
+    drop = dropped_set(toks)
     if P == "PANIC":
         bad.append("preparse-panics")
-        return bad, f5
+        return bad, f5, drop
     idx, lead, trail = parse_pre(P)
     syntax = [i for i, (k, _, _) in enumerate(toks) if k not in TRIVIA and k != "Eof"]
     if idx != syntax:
@@ -119,10 +128,12 @@ def eval_property(src_bytes, fields):
             c = occ.get(i, 0)
             if c == 1:
                 continue
-            if c == 0 and dropped_class(toks, i):
+            if c == 0 and i in drop:
                 f5.append(i)
             else:
                 bad.append("trivia-once")
+        elif i in drop:
+            bad.append("python-class-predicate")
     # neighbouring: leading trivia of token k sit between token k-1 and k, trailing between k and k+1
     for k, vs in lead.items():
         if k < len(idx):
@@ -141,7 +152,7 @@ def eval_property(src_bytes, fields):
         leaves = [int(x) for x in X.split(",")] if X else []
         if leaves != syntax:
             bad.append("cst-leaves")
-    return bad, f5
+    return bad, f5, drop
 
 
 class Runner:
@@ -213,7 +224,7 @@ def mutate(rng, s):
 
 def repo_mmm():
     fs = []
-    for sub in ("lib", "examples", "crates"):
+    for sub in ("lib", "examples", "crates", "tmp", "tests"):
         fs += glob.glob(os.path.join(REPO, sub, "**", "*.mmm"), recursive=True)
     fs = sorted(f for f in set(fs) if "/target/" not in f)
     out = []
@@ -230,6 +241,7 @@ def run(ck):
     proved = ck.prove(tables=["lexer_tables"], extra_targets=["theories/Extract/LexerExtract.vo"])
 
     # ---- build both sides ----
+    t_b = time.time()
     rc, out, exe_m = ocaml_build("lex_drv", ["lex_model"], os.path.join(VERIF, "ocaml", "lex_drv.ml"))
     if rc != 0:
         ck.broken.append("model-build: " + out[-400:])
@@ -240,6 +252,7 @@ def run(ck):
         ck.violation("harness does not build against /repo", {"cargo_output": out[-3000:]}, no_input=True)
         return finish(ck)
     R = Runner(os.path.join(bindir, "lex_run"), exe_m)
+    ck.coverage["build_s"] = round(time.time() - t_b, 1)
     findings = {f["cls"]: f for f in known_findings("C13")}
     F5 = findings.get("trivia-before-first-syntax-token-dropped")
 
@@ -247,8 +260,18 @@ def run(ck):
     disagreements = []    # (origin, text, model, impl)
     stats = {"evaluations": 0, "f5_cases": 0, "nontrivial": 0, "tokens": 0, "model_compared": 0}
     crashed = []
+    class_mismatch = []
+
+    timing = ck.coverage.setdefault("phase_s", {})
 
     def process(origin, texts, sample_every=0):
+        t_ph = time.time()
+        try:
+            return process1(origin, texts, sample_every)
+        finally:
+            timing[origin] = round(timing.get(origin, 0) + time.time() - t_ph, 1)
+
+    def process1(origin, texts, sample_every=0):
         out_i, out_m = R.run(texts)
         if out_i is None:
             crashed.append(origin)
@@ -260,7 +283,7 @@ def run(ck):
                 clause_fail.append((origin, t, ["harness-output"], line))
                 continue
             stats["evaluations"] += 1
-            bad, f5 = eval_property(utf8(t), fields)
+            bad, f5, drop = eval_property(utf8(t), fields)
             if fields[1].count(",") >= 2:
                 stats["nontrivial"] += 1
             stats["tokens"] += fields[1].count(",") + 1
@@ -275,8 +298,12 @@ def run(ck):
                     clause_fail.append((origin, t, ["trivia-once"], line))
             if out_m is not None:
                 stats["model_compared"] += 1
-                if out_m[n] != fields[1] + "\t" + fields[2] and len(disagreements) < 50:
+                mf = out_m[n].split("\t")
+                if (len(mf) != 3 or mf[0] != fields[1] or mf[1] != fields[2]) and len(disagreements) < 50:
                     disagreements.append((origin, t, out_m[n], fields[1] + "\t" + fields[2]))
+                elif len(mf) == 3 and drop is not None and mf[2] != ",".join(str(j) for j in sorted(drop)):
+                    # the python class predicate of F5 and Coq's `dropped` must be the same predicate
+                    class_mismatch.append((origin, t, mf[2], sorted(drop)))
             if sample_every and n % sample_every == sample_every // 2:
                 ck.sample({"origin": origin, "input": t, "implementation": fields[1] + " | " + fields[2] + " | cst " + fields[3],
                            "model": out_m[n] if out_m else None})
@@ -301,7 +328,7 @@ def run(ck):
     # ---- the F5 witness of C13_leading_trivia_refuted, replayed on the real code ----
     wi, _ = R.run(["// c\nfn"])
     if wi is not None:
-        _, f5 = eval_property(utf8("// c\nfn"), wi[0].split("\t"))
+        _, f5, _ = eval_property(utf8("// c\nfn"), wi[0].split("\t"))
         ck.coverage["F5_witness_reproduced_on_implementation"] = (f5 == [0, 1])
         if f5 != [0, 1] and F5:
             # the finding is listed but the implementation no longer shows it: the refutation theorem / model is stale
@@ -316,7 +343,7 @@ def run(ck):
         for tup in itertools.product(ALPHABET, repeat=L):
             batch.append("".join(tup))
             if len(batch) >= 250000:
-                process(f"exhaustive<= {maxlen}", batch, sample_every=200000)
+                process(f"exhaustive<={maxlen}", batch, sample_every=200000)
                 n_exh += len(batch)
                 batch = []
     if batch:
@@ -329,7 +356,7 @@ def run(ck):
 
     # ---- random / mutated Unicode text ----
     rng = ck.rng.fork("random-text")
-    n_rand = 6000 if ck.tier == "quick" else 120000
+    n_rand = 20000 if ck.tier == "quick" else 120000
     texts = [rand_text(rng, 12) for _ in range(n_rand)]
     process("random", texts, sample_every=n_rand)
     ck.coverage["random_texts"] = n_rand
@@ -339,7 +366,7 @@ def run(ck):
     ck.coverage["repo_mmm_files"] = len(files)
     process("repo-file", [s for _, s in files], sample_every=len(files))
     rng = ck.rng.fork("prefixes")
-    npre = 2 if ck.tier == "quick" else 12
+    npre = 4 if ck.tier == "quick" else 12
     pre = []
     for _, s in files:
         for _ in range(npre):
@@ -347,7 +374,7 @@ def run(ck):
     process("repo-file-prefix", pre)
     ck.coverage["repo_file_prefixes"] = len(pre)
     rng = ck.rng.fork("mutations")
-    nmut = 2 if ck.tier == "quick" else 12
+    nmut = 4 if ck.tier == "quick" else 12
     mut = []
     for _, s in files:
         for _ in range(nmut):
@@ -361,6 +388,7 @@ def run(ck):
     ck.coverage["model_vs_impl_compared"] = stats["model_compared"]
     ck.coverage["model_vs_impl_disagreements"] = len(disagreements)
     ck.coverage["cases_in_known_class_F5"] = stats["f5_cases"]
+    ck.coverage["F5_class_predicate_python_vs_coq_mismatches"] = len(class_mismatch)
 
     # ---- verdicts ----
     def replay_obj(origin, t, extra):
@@ -382,7 +410,12 @@ def run(ck):
         ck.violation("model and implementation disagree (no clause of the property fails on the explored inputs)",
                      replay_obj(origin, t, {"correspondence": "Lexer.Model.{tokenize,preparse} vs parser::{tokenize,preparse}",
                                             "model": m_, "implementation": i_, "disagreements": len(disagreements)}), no_input=True)
-    if (not proved or ck.broken) and not clause_fail and not disagreements and not crashed:
+    if class_mismatch:
+        origin, t, m_, p_ = class_mismatch[0]
+        ck.broken.append("F5 class predicate: checks/C13.py dropped_set vs Coq PreLemmas.dropped")
+        ck.violation("the python class predicate of finding F5 differs from Coq's `dropped`",
+                     replay_obj(origin, t, {"coq_dropped": m_, "python_dropped": p_}), no_input=True)
+    if (not proved or ck.broken) and not clause_fail and not disagreements and not crashed and not class_mismatch:
         ck.violation("a proof obligation of Props/C13.v (or its translator / known-finding witness) no longer checks",
                      {"broken": ck.broken}, no_input=True)
     return finish(ck)
